@@ -184,12 +184,19 @@ func freePort() int {
 	panic(err)
 }
 
+// harnessLogLevel, when set, is the level of every server whose configuration does not name one (C15 repeats its
+// workloads with Debug-level loggers: gldap's debug statements read connection state, too).
+var harnessLogLevel hclog.Level
+
 // newSrv builds (but does not run) a server with a fresh mux.
 func newSrv(cfg SrvCfg) (*Srv, error) {
 	s := &Srv{Log: &logSink{}, runDone: make(chan struct{})}
 	lvl := cfg.LogLevel
 	if lvl == hclog.NoLevel {
 		lvl = hclog.Error
+		if harnessLogLevel != hclog.NoLevel {
+			lvl = harnessLogLevel
+		}
 	}
 	opts := []gldap.Option{gldap.WithLogger(s.Log.logger(lvl))}
 	if cfg.DisableRecover {
